@@ -78,7 +78,8 @@ def new_proc(rng, ws, kind=None):
 def new_module(rng, ws, name, earlier):
     u = {"kind": "module", "name": name, "uses": [], "private_default": rng.random() < 0.25,
          "vars": [new_var(rng, ws) for _ in range(rng.randint(1, 3))], "types": [], "procs": [],
-         "mod_procs": [], "public": [], "long_line": rng.random() < 0.15}
+         "mod_procs": [], "public": [], "long_line": rng.random() < 0.15,
+         "externals": [f"ef{uid(ws)}{ident(rng, 2)}"] if rng.random() < 0.3 else []}
     if earlier and rng.random() < 0.8:
         m = rng.choice(earlier)
         src = ws["files"][f"{m}.f90"]
@@ -258,6 +259,10 @@ def render(unit):
             ls.append(f"  end type {t['name']}")
         for v in unit["vars"]:
             ls += decl(v)
+        for e in unit.get("externals", []):
+            # FORTRAN 77 style: type and EXTERNAL attribute in separate statements
+            ls.append(f"  real {e}")
+            ls.append(f"  external {e}")
         if unit.get("long_line"):
             ls.append("  integer, parameter :: long_one = " + " + ".join(["1"] * 60))
         if unit["mod_procs"]:
